@@ -174,7 +174,8 @@ func cmdC06(args []string) error {
 		if err != nil {
 			return err
 		}
-		zp := filepath.Join(root, "build.zip")
+		// (the healer spec is "archive,<location>": the location itself may contain commas)
+		zp := filepath.Join(root, []string{"build.zip", "build,v1.zip", "Hello, World build.zip"}[k%3])
 		if err := zipBuild(zp, build); err != nil {
 			return err
 		}
